@@ -83,7 +83,10 @@ def run(ctx):
                 good = good and call[2][1] == ("sub", side, k) and side in (SELF, other)
         ctx.ob("C20.R1", fi, good, "an entry fails when its key is missing on the other side or the values differ", key="failure condition")
         alltrue = [p for p in paths if p.retval == N.TRUE and p is not idp[0]] if idp else []
-        ctx.ob("C20.R1", fi, bool(alltrue) and all(not any(e.kind == "RETURN" and e.loops for e in p.events) for p in alltrue), "True only after both loops ran to completion", key="true at end")
+        lids = {loops[0]["lid"], loops[1]["lid"]}
+        done = lambda p: {e["lid"] for e in p.events if e.kind == "LOOPEND" and e["how"] in ("exhausted", "zero")} >= lids
+        ctx.ob("C20.R1", fi, bool(alltrue) and all(not any(e.kind == "RETURN" and e.loops for e in p.events) and done(p) for p in alltrue),
+               "True (other than for the identical object) only after both loops ran to completion: no size or one-sided shortcut", key="true at end")
     if "__ne__" in M.cls("Container").methods:
         fi, paths = own_method_paths(ctx, "Container", "__ne__")
         ok = len(paths) == 1 and paths[0].retval == N.mk_not(N.mk_cmp("==", SELF, other))
@@ -113,6 +116,22 @@ def run(ctx):
     deep = any(memo is not None and ("param", memo) in e["args"] and any(x[0] in ("unpack", "val") for x in N.walk(e["args"][0])) for e in calls)
     ctx.ob("C20.R2", fi, uses_memo, "__deepcopy__ takes part in the memo protocol (registers itself / passes memo on)", key="deepcopy memo")
     ctx.ob("C20.R2", fi, deep, "__deepcopy__ deep-copies the values (independent at every depth)", key="deepcopy values")
+    # every entry that reaches the result was deep-copied: no iteration path stores a value by reference or skips an entry
+    every = True
+    iters = 0
+    for p in paths:
+        for i, e in enumerate(p.events):
+            if e.kind != "ITER":
+                continue
+            iters += 1
+            seg = []
+            for x in p.events[i + 1:]:
+                if x.kind in ("ITER", "LOOPEND") and x["lid"] == e["lid"]:
+                    break
+                seg.append(x)
+            st = [x for x in seg if x.kind == "STORE" and x["base"] == p.retval]
+            every = every and len(st) == 1 and st[0]["value"][0] == "call" and is_deepcopy(st[0]["value"][1]) and any(y[0] in ("unpack", "val") for y in N.walk(st[0]["value"][2][0]))
+    ctx.ob("C20.R2", fi, every and iters >= 1, "every entry, underscore keys included, is stored into the copy as deepcopy(value, memo) -- none by reference, none skipped", key="deepcopy every entry")
     fi, paths = own_method_paths(ctx, "Container", "__init__")
     alias = [e for p in paths for e in p.events if e.kind == "SELFWRITE" and e["attr"] == "__dict__" and e["value"] == SELF]
     ctx.ob("C20.R2", fi, bool(alias), "__init__ aliases __dict__ to the dict itself (attribute access == key access)", key="init alias")
@@ -129,7 +148,7 @@ def run(ctx):
             and not any(x[0] == "call" and x[1][0] == "attr" and x[1][1] == SELF for x in N.walk(r[1][4]))
         fs = fr
     ctx.ob("C20.R2", fs, restores or reduce_, "unpickling bypasses __init__, so __setstate__ must re-establish the __dict__ aliasing, or __reduce__ must rebuild through the class and refill without calling a shadowable method", key="pickle alias")
-    ctx.floor("C20.R2", 6)
+    ctx.floor("C20.R2", 7)
 
     # ---------------------------------------------------------------- R3
     DICT_METHODS = {"items", "keys", "values", "update", "clear", "copy", "get", "pop", "setdefault", "popitem"}
@@ -202,6 +221,7 @@ def run(ctx):
             if isinstance(node, ast.Call) and isinstance(node.func, ast.Name) and node.func.id == "isinstance" and len(node.args) == 2:
                 names = [e.id for e in (node.args[1].elts if isinstance(node.args[1], ast.Tuple) else [node.args[1]]) if isinstance(e, ast.Name)]
                 ctx.ob("C20.R5", fi0, set(names) <= searchable, "%s._search descends only into classes that define _search (%s); anything else would raise AttributeError, which the blanket handler swallows together with the entry" % (cls, names), key="%s recursion guard" % cls, node=node)
+                ctx.ob("C20.R5", fi0, set(names) >= searchable, "%s._search descends into every searchable class %s (a guard naming only %s never searches the others, e.g. a list nested in a list)" % (cls, sorted(searchable), names), key="%s recursion guard complete" % cls, node=node)
     for cls in ("Container", "ListContainer"):
         fi, paths = own_method_paths(ctx, cls, "_search")
         tests = [g for p in paths for g in p.guards() if any(x[0] == "call" and x[1][0] == "attr" and x[1][2] == "_search" for x in N.walk(g))]
